@@ -14,7 +14,7 @@ def run(ctx):
            timeout=tmo, twin_fn='tw_gzip', twin_pre=[{'kind': 0, 'body_i': 2}], confirm='confirm_gzip',
            desc='GzipMiddleware.request: status kept, compresses only for accepting clients, bytes sent == compressor output, '
                 'Content-Length == len(sent), Vary names Accept-Encoding; otherwise body untouched; no exception for HTTPException results'),
-        Ob('gzip_sequence', 'ob_gzip_sequence', '', packed=[('b0', 6), ('b1', 6), ('b2', 6), ('a_i', 10)], cells=[('b%d' % b, [{'b0': b}]) for b in range(6)], timeout=tmo, confirm='confirm_gzip_sequence',
+        Ob('gzip_sequence', 'ob_gzip_sequence', '', packed=[('b0', 6), ('b1', 6), ('b2', 6), ('a_i', 10)], cells=[('b%d_%d' % (a, b), [{'b0': a, 'b1': b}]) for a in range(6) for b in range(6)], timeout=tmo, confirm='confirm_gzip_sequence',
            desc='ONE GzipMiddleware instance answering three responses in a row (bodies: empty, short, 64 kB repetitive, 40 kB incompressible hex, text, binary) with the real compressor and real '
                 'Accept-Encoding headers (absent, gzip, gzip;q=0, identity, *, *;q=0, q-lists): a body labelled gzip decompresses to exactly that response\'s bytes and only goes to clients accepting gzip'),
         Ob('passthrough', 'ob_passthrough', '',
